@@ -3,6 +3,7 @@ C04 — expressions evaluate per the documented semantics, lazily and once.
 Theorems about `Just.Eval` (model of src/evaluator.rs).
 -/
 import Just.Model.Eval
+import Just.Lemmas.EvalOnce
 namespace Just.Props.C04
 open Just Just.Eval
 
@@ -451,5 +452,52 @@ theorem own_assignment_first :
     ((evaluateAssignments new as [] 10).1.scope.lookup "A" = some "mine" ∧
      (evaluateAssignments new as [] 10).1.scope.lookup "Z" = some "mine") := by
   decide
+
+/-- **Once.**  Every assignment's expression is evaluated at most once per evaluation of the module
+(`evaluate_assignment` binds the value; a bound name is looked up, never evaluated again) - for every
+table whose references are acyclic (`Ranked`: what the assignment resolver guarantees, C03), any
+overrides, any behaviour of backticks and functions, any fuel, whether the evaluation succeeds or
+fails half-way.  `logged` is the ghost list of names whose expression started evaluating. -/
+theorem each_assignment_once (rank : String → Nat) (ctx : Ctx) (as : List (String × Expr))
+    (overrides : List (String × String)) (fuel R : Nat)
+    (hacyclic : Ranked rank as) (hR : ∀ x e, as.lookup x = some e → rank x < R)
+    (hkeys : ∀ p ∈ as, as.lookup p.1 = some p.2) :
+    (logged (evaluateAssignments ctx as overrides fuel).1.log).Nodup := by
+  unfold evaluateAssignments
+  simp only
+  have hp : Pre rank R { scope := (overrides.filter (fun o => (as.lookup o.1).isSome)).reverse, log := [] } :=
+    ⟨by simp [logged], by intro n hn; simp [logged] at hn⟩
+  have := evalAll_once rank ctx as hacyclic fuel R hR as hkeys _ hp
+  unfold Post at this
+  split at this
+  · exact this.nodup
+  · exact this
+
+/-- non-vacuity: `a := b + c`, `b := c`, `c := 'x'` is ranked by position -/
+example : Ranked (fun n => if n = "a" then 2 else if n = "b" then 1 else 0)
+    [("a", .concat (.var "b") (.var "c")), ("b", .var "c"), ("c", .str "x")] := by
+  intro x e hx y hy hk
+  by_cases ha : x = "a"
+  · subst ha
+    simp [List.lookup] at hx
+    subst hx
+    simp [Expr.vars] at hy
+    rcases hy with rfl | rfl <;> decide
+  · by_cases hb : x = "b"
+    · subst hb
+      simp [List.lookup] at hx
+      subst hx
+      simp [Expr.vars] at hy
+      subst hy
+      decide
+    · by_cases hc : x = "c"
+      · subst hc
+        simp [List.lookup] at hx
+        subst hx
+        simp [Expr.vars] at hy
+      · have h1 : (x == "a") = false := by simpa using ha
+        have h2 : (x == "b") = false := by simpa using hb
+        have h3 : (x == "c") = false := by simpa using hc
+        simp [List.lookup, h1, h2, h3] at hx
 
 end Just.Props.C04
